@@ -418,6 +418,92 @@ func c18Random(rng *rand.Rand, n int, _ []string) {
 		}
 		sx.Case("c18.regen", sx.List(sx.Str(t), sx.Int(len(digests))), out)
 	}
+	// pairs of grammars that share node, token and nonterminal names but differ in options that change how the
+	// names are rendered: the second one generated after the first in this process must equal the second one
+	// generated alone in a fresh process
+	pairs := n/4 + 1
+	for i := 0; i < pairs; i++ {
+		a, b := c18PairTM(rng)
+		alone := c18Sub("-", b, []int{1, 2, 8}[rng.Intn(3)])
+		out := sx.List("same", sx.Int(0))
+		if _, err := c18GenText(a); err != nil || alone == "error" || alone == "crash" {
+			out = sx.List("differs", sx.List("pair-does-not-generate"))
+		} else if files, err := c18GenText(b); err != nil {
+			out = sx.List("differs", sx.List("pair-does-not-generate"))
+		} else if digest(files) != alone {
+			out = sx.List("differs", sx.List("depends-on-earlier-generation"))
+		} else {
+			out = sx.List("same", sx.Int(len(files)))
+		}
+		sx.Case("c18.regen", sx.List(sx.Str(a+"\n#### then\n"+b), sx.Int(2)), out)
+	}
 	sx.Stat("grammars_tried", tried)
 	sx.Stat("grammars_skipped_because_generation_crashed", crashed)
+	sx.Stat("grammar_pairs", pairs)
+}
+
+func c18PairTM(rng *rand.Rand) (string, string) {
+	nodes := []string{"File", "Decl", "Name", "Value", "Block", "Item"}
+	rng.Shuffle(len(nodes), func(i, j int) { nodes[i], nodes[j] = nodes[j], nodes[i] })
+	body := fmt.Sprintf(`:: lexer
+
+id: /[a-z]+/
+num: /[0-9]+/
+'=': /=/
+';': /;/
+'{': /\{/
+'}': /\}/
+space: /[ \t\n]+/ (space)
+invalid_token:
+
+:: parser
+
+%%input file;
+
+file -> %s:
+    decl+
+;
+
+decl -> %s:
+    (id -> %s) '=' value ';'
+  | block
+;
+
+value -> %s:
+    num
+  | id
+;
+
+block -> %s:
+    '{' (decl -> %s)* '}'
+;
+`, nodes[0], nodes[1], nodes[2], nodes[3], nodes[4], nodes[5])
+	opts := func() string {
+		var sb strings.Builder
+		sb.WriteString("language pair(go);\n\nlang = \"pair\"\npackage = \"github.com/verif/pair\"\neventBased = true\n")
+		if rng.Intn(2) == 0 {
+			sb.WriteString("eventFields = true\n")
+			if rng.Intn(2) == 0 {
+				sb.WriteString("eventAST = true\n")
+			}
+		}
+		if rng.Intn(3) > 0 {
+			fmt.Fprintf(&sb, "nodePrefix = %q\n", []string{"A", "B", "Nt", "X"}[rng.Intn(4)])
+		}
+		if rng.Intn(3) == 0 {
+			sb.WriteString("reportTokens = [id, num]\n")
+		}
+		if rng.Intn(3) == 0 {
+			sb.WriteString("extraTypes = [\"Extra\", \"More -> Decl\"]\n")
+		}
+		if rng.Intn(4) == 0 {
+			sb.WriteString("tokenLine = false\n")
+		}
+		if rng.Intn(4) == 0 {
+			sb.WriteString("optimizeTables = true\n")
+		}
+		sb.WriteString("\n")
+		return sb.String()
+	}
+	return opts() + body, opts() + body
 }
